@@ -27,6 +27,7 @@ def run(ck):
     e2(ck, w)
     e3(ck, w)
     e4(ck, w)
+    e5(ck, w)
 
 
 def e1(ck, w):
@@ -278,3 +279,45 @@ def e4(ck, w):
         ck.record('C09.E4', f'flag:{fl}', bool(setters) and in_value == 0 and read_in_syn,
                   f'{len(setters)} setter(s), none inside a Value closure; consulted by synthesize',
                   f'{fl}: setters={len(setters)}, inside Value closures={in_value}, consulted by MidnightCircuit::synthesize={read_in_syn}', hirq.fn_loc(s))
+
+
+C09_PEEKS = {
+    # function that keeps the Result of a witness test instead of propagating it with `?`: why the structure does not depend on it
+    '<midnight_circuits::ecc::foreign::ecc_chip::ForeignEccChip as midnight_circuits::instructions::control_flow::ControlFlowInstructions<midnight_circuits::ecc::foreign::ecc_chip::AssignedForeignPoint>>::select':
+        'chooses which OFF-CIRCUIT value (`point`, a Value-only field) the selected point carries; the cells are selected in-circuit just above',
+}
+
+
+def e5(ck, w):
+    """a witness test is an error or nothing"""
+    ck.rule('C09.E5', 'Value::error_if_known_and / Value::assert_if_known answer a question about the witness with a Result.  That Result is propagated with `?` '
+                      '(a witness that fails the test aborts proving; key generation, where the witness is unknown, is unaffected).  Keeping it — binding it, testing '
+                      'it with is_ok / is_err / match — turns the witness test into a branch that key generation and proving may take differently: regions '
+                      'assigned under it exist in one pass only and every later region moves.  Sites that keep the Result are tabled with the reason why no '
+                      'structural call depends on them (tables: C09_PEEKS).')
+    n = 0
+    for f in w.all_fns(DOWNSTREAM):
+        if '::tests::' in f['_nid'] or '/tests' in f['file']:
+            continue
+        par = {}
+        for x in walk(f['body']):
+            for c in children(x):
+                par[id(c)] = x
+        for x in hirq.calls(f['body']):
+            c = callee(x) or ''
+            if c not in (V + '::error_if_known_and', V + '::assert_if_known'):
+                continue
+            n += 1
+            p_ = par.get(id(x))
+            while p_ is not None and p_.get('k') == 'block' and not p_.get('ss'):
+                p_ = par.get(id(p_))
+            propagated = p_ is not None and p_.get('k') in ('try', 'ret') or (p_ is not None and p_.get('k') == 'block' and p_.get('e') is x and par.get(id(p_)) is None)
+            key = f'{f["_xid"]}|{last_seg(c)}'
+            if propagated:
+                ck.ok('C09.E5', key, 'the Result is propagated', hirq.fn_loc(f, x))
+            elif f['_xid'] in C09_PEEKS or f['_nid'] in C09_PEEKS:
+                ck.ok('C09.E5', key, 'tabled: ' + (C09_PEEKS.get(f['_xid']) or C09_PEEKS.get(f['_nid'])), hirq.fn_loc(f, x))
+            else:
+                ck.bad('C09.E5', key, f'{f["_nid"]} keeps the Result of Value::{last_seg(c)} instead of propagating it with `?`: what follows may be decided by the witness '
+                       f'(known while proving, unknown during key generation), so regions, rows and copy constraints can differ between the two passes', hirq.fn_loc(f, x))
+    ck.floor('C09.E5', 'witness tests', n, 4)
